@@ -91,6 +91,7 @@ func NewReaderFS(ctx context.Context, r io.Reader, options ReaderFSOptions) (_ *
 func (fs *ReaderFS) read(r io.Reader) {
 	err := fs.readErr(r)
 	if err != nil {
+		verifPoint("read:before-store-err")
 		fs.unarchiveErr.Store(err)
 	}
 	fs.callerCancel()
@@ -253,6 +254,7 @@ func (fs *ReaderFS) writeFile(path string, info hackpadfs.FileInfo, initialBuf *
 	defer func() {
 		_ = f.Close()
 		if returnedErr == nil {
+			verifPoint("writeFile:before-emit")
 			fs.ps.Emit(path) // only emit for non-dirs, dirs will wait until the total tar read completes to ensure correctness
 		}
 	}()
@@ -295,6 +297,7 @@ func (fs *ReaderFS) Open(name string) (hackpadfs.File, error) {
 		return nil, &hackpadfs.PathError{Op: "open", Path: name, Err: hackpadfs.ErrInvalid}
 	}
 	fs.ps.Wait(name)
+	verifPoint("open:after-wait")
 	if unarchiveErr := fs.UnarchiveErr(); unarchiveErr != nil {
 		return nil, &hackpadfs.PathError{Op: "open", Path: name, Err: unarchiveErr}
 	}
